@@ -114,8 +114,7 @@ def falsify_program(ctx, case: Dict) -> bool:
                     if not cs or target is None:
                         continue
                     i = op[2] % len(cs)
-                    if not all(c.indicators.get(target.name) is not None and
-                               all(v is not None for v in E.all_values(c.indicators.get(target.name))) for c in cs[:i + 1]):
+                    if not all(target.name in c.indicators for c in cs[:i + 1]):
                         continue
                     op2[2] = i if op[3] else i - len(cs)
                 if op[0] == "remove":
@@ -158,8 +157,11 @@ def gen_program(rng, ctx) -> Dict:
     rows = X.gen_rows(rng, n, late=0)
     kinds = [k for k in X.KINDS if k not in ("AMORPH", "COUNTER")]
     specs = []
-    for _ in range(rng.randint(1, 3)):
-        s = X.gen_spec(rng, rng.choice(kinds), inputs=("close", "high"))
+    shared = rng.random() < 0.35
+    family = rng.choice([["ATR", "ATR"], ["ATR", "KC"], ["SUPERTREND", "ADX"], ["KC", "SUPERTREND", "ATR"]])
+    for j in range(len(family) if shared else rng.randint(1, 3)):
+        # indicators of one family share the parameterless helper series "TR"
+        s = X.gen_spec(rng, family[j] if shared else rng.choice(kinds), inputs=("close", "high"))
         s["round_value"] = 4
         s["name_suffix"] = f"m{len(specs)}"
         specs.append(s)
@@ -170,7 +172,7 @@ def gen_program(rng, ctx) -> Dict:
     while i < len(rest):
         r = rng.random()
         who = rng.choice([None] + list(range(len(specs))))
-        if r < 0.45:
+        if r < (0.25 if shared else 0.45):
             m = rng.randint(1, 5)
             ops.append(("append", rest[i:i + m]))
             i += m
@@ -181,7 +183,8 @@ def gen_program(rng, ctx) -> Dict:
         elif r < 0.8:
             ops.append(("recalculate", who))
         elif r < 0.92:
-            ops.append(("calc_index", rng.randrange(len(specs)), rng.randrange(1000), rng.random() < 0.5))
+            # index -1 (the newest candle) is the default of Hexital.calculate_index
+            ops.append(("calc_index", rng.randrange(len(specs)), -1 if rng.random() < 0.5 else rng.randrange(1000), rng.random() < 0.5))
         elif r < 0.96 and len(specs) > 1:
             ops.append(("remove", rng.randrange(len(specs))))
         else:
@@ -189,7 +192,44 @@ def gen_program(rng, ctx) -> Dict:
             s["round_value"] = 4
             s["name_suffix"] = f"x{len(ops)}"
             ops.append(("add", s))
+    # maintenance operations after the last append (nothing but the final calculate() follows them)
+    for _ in range(rng.choice([0, 1, 2, 3, 4])):
+        r = rng.random()
+        who = rng.choice([None] + list(range(len(specs))))
+        if r < 0.35:
+            ops.append(("purge", who))
+        elif r < 0.5:
+            ops.append(("recalculate", who))
+        elif r < 0.9:
+            ops.append(("calc_index", rng.randrange(len(specs)), -1 if rng.random() < 0.6 else rng.randrange(1000), rng.random() < 0.5))
+        else:
+            ops.append(("calculate", who))
     return {"specs": specs, "rows": rows, "init": init, "ops": ops}
+
+
+def gen_shared_helper_program(rng, ctx) -> Dict:
+    """Members that share the parameterless helper series 'TR', fully calculated, then a few
+    maintenance operations aimed at single members, then (in falsify_program) calculate()."""
+    n = rng.randint(12, 45)
+    rows = X.gen_rows(rng, n, late=0)
+    family = rng.choice([["ATR", "ATR"], ["ATR", "KC"], ["SUPERTREND", "ADX"], ["KC", "SUPERTREND", "ATR"], ["ADX", "ATR"]])
+    specs = []
+    for j, k in enumerate(family):
+        s = X.gen_spec(rng, k, inputs=("close",))
+        s["round_value"] = 4
+        s["name_suffix"] = f"m{j}"
+        specs.append(s)
+    ops = [("calculate", None)]
+    for _ in range(rng.randint(2, 4)):
+        r = rng.random()
+        who = rng.randrange(len(specs))
+        if r < 0.45:
+            ops.append(("purge", who))
+        elif r < 0.9:
+            ops.append(("calc_index", who, -1 if rng.random() < 0.7 else rng.randrange(1000), rng.random() < 0.5))
+        else:
+            ops.append(("recalculate", who))
+    return {"specs": specs, "rows": rows, "init": rows, "ops": ops}
 
 
 def run(ctx: core.Ctx) -> int:
@@ -219,6 +259,8 @@ def run(ctx: core.Ctx) -> int:
     programs = [c["case"] for c in E.load_corpus("C14") if c.get("mode") == "program"]
     for _ in range(ctx.n(120, 1500)):
         programs.append(gen_program(rng, ctx))
+    for _ in range(ctx.n(60, 700)):
+        programs.append(gen_shared_helper_program(rng, ctx))
     for c in programs:
         ctx.count("eval_falsifier")
         falsify_program(ctx, c)
